@@ -197,3 +197,35 @@ func VH_C12_lin(kind, opA, opB int) {
 	vassert(got == ab || got == ba, "outcome-explained-by-a-sequential-order")
 	vreach("end")
 }
+
+// VH_C12_events: two clients send an event to the same location at the same time; the
+// rule they both match is served from the state's rule cache (shared). No race, no
+// deadlock, and each event runs the rule's action exactly once.
+func VH_C12_events(kind int) {
+	env := vhNewEnv(kind)
+	in := &vhInterpSync{}
+	c := DefaultControl()
+	c.ActionInterpreters = map[string]ActionInterpreter{"vh": in}
+	env.loc.SetControl(c)
+	_, err := env.loc.AddRule(env.ctx, "r1", vhRule(map[string]interface{}{"a": "?x"}, "act"))
+	vassume(err == nil)
+	// warm the rule cache
+	_, cond := env.loc.ProcessEvent(env.ctx, Map{"a": "0"})
+	vassume(cond == nil)
+	var wg sync.WaitGroup
+	wg.Add(2)
+	var c1, c2 *Condition
+	ctx1, ctx2 := env.ctx.SubContext(), env.ctx.SubContext()
+	go func() {
+		_, c1 = env.loc.ProcessEvent(ctx1, Map{"a": "1"})
+		wg.Done()
+	}()
+	go func() {
+		_, c2 = env.loc.ProcessEvent(ctx2, Map{"a": "2"})
+		wg.Done()
+	}()
+	wg.Wait()
+	vassert(c1 == nil && c2 == nil, "event-complete")
+	vassert(len(in.execs) == 3, "each-event-runs-the-rule-once")
+	vreach("end")
+}
